@@ -1032,6 +1032,10 @@ func (g *generatorObject) delegate(v Value) Value {
 }
 
 func (g *generatorObject) tryCallDelegated(fn func() (Value, bool)) (ret Value, done bool) {
+	// While the delegate's method runs the generator is executing: a re-entrant next() / throw() / return() from inside
+	// the delegate is a TypeError (it used to recurse into the delegate again, without bound).
+	state := g.state
+	g.state = genStateExecuting
 	ex := g.val.runtime.try(func() {
 		ret, done = fn()
 	})
@@ -1040,6 +1044,7 @@ func (g *generatorObject) tryCallDelegated(fn func() (Value, bool)) (ret Value, 
 		g.state = genStateExecuting
 		return g.step(g.gen.nextThrow(ex)), false
 	}
+	g.state = state
 	return
 }
 
